@@ -215,7 +215,38 @@ def _real_io(name, args):
     raise KeyError(name)
 
 
+def _real_base(name, args):
+    import numpy as np
+    import verde.base as vb
+
+    def arrs(t, allow_none=False):
+        if t == "-":
+            return ()
+        out = []
+        for x in t.split(";"):
+            if x == "N":
+                out.append(None)
+            else:
+                out.append(np.zeros(() if x == "s" else tuple(int(v) for v in x.split("x"))))
+        return tuple(out)
+    if name == "checkFitInput":
+        try:
+            vb.check_fit_input(arrs(args[0]), arrs(args[1]), arrs(args[2]))
+        except ValueError:
+            return ["err"]
+        except Exception:  # noqa: BLE001
+            return ["err2"]
+        return ["ok"]
+    raise KeyError(name)
+
+
 def _differs(kind, a, b):
+    if kind == "base":
+        a, b = list(a), list(b)
+        if "errany" in (a + b):
+            other = b if a == ["errany"] else a
+            return other not in (["err"], ["err2"], ["errany"])
+        return a != b
     if kind == "io":
         return list(a) != list(b)
     if len(a) != len(b):
@@ -252,14 +283,14 @@ def search(kind, limit=5):
     """Returns (found, stats).  found: list of dicts with definition, inputs, gen, model, impl."""
     stats = {"probes": 0, "gen_differs_from_model": 0, "real_code_differs_too": 0, "error": None}
 
-    r = C._locked(["sh", "-c", "lake build VerdeModel.Gen.Kernels VerdeModel.Gen.Coords VerdeModel.Gen.Trend VerdeModel.Gen.Utils VerdeModel.Gen.IO >&2 && "
+    r = C._locked(["sh", "-c", "lake build VerdeModel.Gen.Kernels VerdeModel.Gen.Coords VerdeModel.Gen.Trend VerdeModel.Gen.Utils VerdeModel.Gen.IO VerdeModel.Gen.Base >&2 && "
                    f"lake env lean --run GenEval.lean {kind}"], C.LEAN_DIR, 1500)
     if r.returncode != 0:
         stats["error"] = "translated definitions do not evaluate: " + (r.stdout + r.stderr)[-800:]
         return [], stats
     out = r.stdout
     found = []
-    real = {"kernels": _real_kernels, "utils": _real_utils, "io": _real_io}.get(kind, _real_coords)
+    real = {"kernels": _real_kernels, "utils": _real_utils, "io": _real_io, "base": _real_base}.get(kind, _real_coords)
     for line in out.splitlines():
         parts = [p.split() for p in line.split("|")]
         if len(parts) != 3:
@@ -288,7 +319,7 @@ def search(kind, limit=5):
 
 def rerun(kind, items):
     """Replay: re-evaluate the real functions at the recorded inputs and compare with the recorded model values."""
-    real = {"kernels": _real_kernels, "utils": _real_utils, "io": _real_io}.get(kind, _real_coords)
+    real = {"kernels": _real_kernels, "utils": _real_utils, "io": _real_io, "base": _real_base}.get(kind, _real_coords)
     bad = 0
     for it in items:
         try:
